@@ -431,8 +431,16 @@ func c08Peek(c *Ctx, peek, pread *ssa.Function, peekT *types.Named) {
 		if cc.IsInvoke() && cc.Method.Name() == "Read" {
 			ok := false
 			for _, dc := range DomConds(call) {
-				s := Render(dc.V)
-				if (s == "(len(p0.buffer) > 0)" && !dc.Pol) || (s == "(len(p0.buffer) == 0)" && dc.Pol) || (s == "(len(p0.buffer) != 0)" && !dc.Pol) {
+				bo, isB := dc.V.(*ssa.BinOp)
+				if !isB {
+					continue
+				}
+				lx, isLen := isLenOf(bo.X)
+				k, isK := ConstInt(bo.Y)
+				if !isLen || !isK || k != 0 || !isBufLoad(lx, pread) {
+					continue
+				}
+				if (bo.Op == token.GTR && !dc.Pol) || (bo.Op == token.EQL && dc.Pol) || (bo.Op == token.NEQ && !dc.Pol) || (bo.Op == token.LEQ && dc.Pol) {
 					ok = true
 				}
 			}
@@ -448,7 +456,17 @@ func c08Peek(c *Ctx, peek, pread *ssa.Function, peekT *types.Named) {
 		}
 		for _, lf := range leaves(RetVals(r)[0]) {
 			s := Render(lf)
-			ok := s == "copy(p1, p0.buffer)" || s == "iface:net.Conn.Read(p0.Conn, p1)#0"
+			ok := false
+			switch x := lf.(type) {
+			case *ssa.Call:
+				if bi, isB := x.Call.Value.(*ssa.Builtin); isB && bi.Name() == "copy" && x.Call.Args[0] == ssa.Value(pread.Params[1]) && isBufLoad(x.Call.Args[1], pread) {
+					ok = true
+				}
+			case *ssa.Extract:
+				if rc, isC := x.Tuple.(*ssa.Call); isC && x.Index == 0 && rc.Call.IsInvoke() && rc.Call.Method.Name() == "Read" && len(rc.Call.Args) == 1 && rc.Call.Args[0] == ssa.Value(pread.Params[1]) {
+					ok = true
+				}
+			}
 			c.Check(ok, "replay-count", key, p.InstrPos(r), "returned count = "+s, "Read returns a count that is neither the copied nor the delegate's count: "+s)
 		}
 	}
@@ -458,7 +476,7 @@ func c08Peek(c *Ctx, peek, pread *ssa.Function, peekT *types.Named) {
 		lock, unlock := false, false
 		for _, call := range Calls(fn) {
 			f := call.Common().StaticCallee()
-			if MethodIs(f, "sync", "Mutex", "Lock") && call.Block() == fn.Blocks[0] {
+			if (MethodIs(f, "sync", "Mutex", "Lock") || MethodIs(f, "sync", "RWMutex", "Lock")) && call.Block() == fn.Blocks[0] {
 				lock = true
 			}
 			if _, isDefer := call.(*ssa.Defer); isDefer && MethodIs(f, "sync", "Mutex", "Unlock") {
